@@ -81,3 +81,15 @@ func (f *zzFile) byteAt(x int) byte {
 }
 
 var _ types.DiffDisk = (*zzFile)(nil)
+
+// coalesce helpers (A-sfold) on real files
+func zzFoldUnit(dst, src *zzFile, x int, p bool) {
+	if !p {
+		return
+	}
+	s := zzScale(dst.u)
+	buf := make([]byte, s)
+	src.File.ReadAt(buf, int64(x)*s)
+	dst.File.WriteAt(buf, int64(x)*s)
+}
+func zzFoldPresent(dst *zzFile, b int, p bool) { dst.File.Sync() }
